@@ -1,6 +1,7 @@
 package db
 
 import (
+	"Havoc/pkg/verifhook"
 	"errors"
 	"fmt"
 	"strconv"
@@ -75,6 +76,8 @@ func (db *DB) AgentAdd(agent *agent.Agent) error {
 
 	stmt.Close()
 
+	verifhook.Point("db.exec.AgentAdd")
+
 	return nil
 }
 
@@ -139,6 +142,8 @@ func (db *DB) AgentUpdate(agent *agent.Agent) error {
 
 	stmt.Close()
 
+	verifhook.Point("db.exec.AgentUpdate")
+
 	return nil
 }
 
@@ -156,6 +161,8 @@ func (db *DB) AgentHasDied(AgentID int) bool {
 	if err != nil {
 		return false
 	}
+
+	verifhook.Point("db.exec.AgentHasDied")
 
 	return true
 }
@@ -203,6 +210,8 @@ func (db *DB) AgentRemove(AgentID int) error {
 	if err != nil {
 		return err
 	}
+
+	verifhook.Point("db.exec.AgentRemove")
 
 	return nil
 }
